@@ -108,6 +108,15 @@ func TestWriteRegressions(t *testing.T) {
 		kit.SaveReplay(filepath.Join(dir, "C08", "d3-zero-first-list-columns.json"), "C08", "all-zero first values of a list column", c)
 	}
 	for _, sig := range []string{Traces, Logs, Metrics} {
+		// D15: list / map values longer than the CBOR decoder's default limits
+		id := map[string]string{Traces: "C01", Logs: "C02", Metrics: "C03"}[sig]
+		c := &StreamCase{Batches: []Batch{{Signal: sig, Synth: "long_list/131073"}}}
+		kit.SaveReplay(filepath.Join(dir, id, "d15-list-value-longer-than-131072.json"), id, "list values of more than 131,072 elements round trip", c)
+		// the decoder rebuilds a map with one linear Put per entry: a minute per case
+		c = &StreamCase{Batches: []Batch{{Signal: sig, Synth: "long_map/131073"}}}
+		kit.SaveReplay(filepath.Join(dir, id, "d15-map-value-longer-than-131072.thorough.json"), id, "map values of more than 131,072 entries round trip", c)
+	}
+	for _, sig := range []string{Traces, Logs, Metrics} {
 		// D14: after a valid prefix, a copy of the main payload relabelled as a
 		// related type: the second read on the sub-stream freed the main record
 		// that was then decoded
